@@ -952,7 +952,15 @@ func (t *table) applyInsert(s *stmt, o *outcome) {
 		} else {
 			t.uniqueCheck(pk, r, nil, o)
 		}
-		if len(o.musts) > n {
+		// a "soft" entry (CHECK undetermined by NULL in the ON CONFLICT DO UPDATE result) does not stop the
+		// row from being stored: it only matters while known finding K12h is excluded
+		hard := false
+		for _, m := range o.musts[n:] {
+			if !m.soft {
+				hard = true
+			}
+		}
+		if hard {
 			return
 		}
 		t.store(pk, r)
